@@ -1,12 +1,12 @@
 (* C03 — each build compiles and links exactly the sources of its selected modules.
-   Theorems on the mechanisms (sources by guard, nearest rule, build order); the composition
-   into the emitted LINK statement is exercised by the byte-exact correspondence.
-   Proofs: proofs/StmtFacts.v, proofs/OrderFacts.v. *)
+   Theorems on the mechanisms (sources by guard, nearest rule, build order) and their composition
+   into the emitted LINK statement (C03_link_consumes_sources, proofs/LinkObjects.v).
+   Proofs: proofs/StmtFacts.v, proofs/OrderFacts.v, proofs/LinkObjects.v. *)
 From Coq Require Import Ascii String List NArith.
 Import ListNotations.
 Require Import Laze.model.Base Laze.model.Env Laze.model.Allow Laze.model.Ninja Laze.model.Ctx
         Laze.model.Resolver Laze.model.Imports Laze.model.Generate
-        Laze.proofs.StmtFacts Laze.proofs.OrderFacts.
+        Laze.model.Path Laze.model.Expand Laze.proofs.StmtFacts Laze.proofs.OrderFacts Laze.proofs.LinkObjects.
 Open Scope list_scope.
 
 (* the sources of a module in a build: its plain sources, then the optional ones whose guarding
@@ -46,3 +46,47 @@ Definition gex := fold_left (fun g nd => g_register_dependency g (fst nd) (snd n
   [(S_ "b", S_ "d"); (S_ "a", S_ "b"); (S_ "a", S_ "c"); (S_ "a", S_ "d"); (S_ "c", S_ "e")] g_empty.
 Example C03_ex_order : dependencies_of gex (S_ "a") = Some [S_ "d"; S_ "b"; S_ "e"; S_ "c"; S_ "a"].
 Proof. vm_compute. reflexivity. Qed.
+
+(* The composition: in the statements of a configured build there is the LINK statement whose inputs
+   are, module by module in the build order of the build info, ONE object per source of each module
+   compiled by the default rules (context modules and custom builds contribute none) — and nothing
+   else. The object of a source (source_object): the source path expanded in the module's environment,
+   the rule that the build's rule table — the nearest context on the builder's chain that has a rule
+   for the extension, C03_nearest_rule — holds for it, expanded in the module's environment, and the
+   object path made from (source path, hash of that rule text xor hash of the order-only deps, the
+   rule's output extension). *)
+Theorem C03_link_consumes_sources : forall H EV b le builder binary select disable cli_env info entries,
+  configure_build H EV b le builder binary select disable cli_env = Ok (Built info entries) ->
+  exists (in_order : list (module * env * option (list module))) merge_opts ms objss lb,
+    map (fun mm => m_name (fst (fst mm))) in_order = bi_build_order info /\
+    bi_modules info = map m_name ms /\
+    Forall2 (module_objects H EV (collect_rules b builder) merge_opts ms (path_push (le_build_dir le) (S_ "objects"))
+                            (bi_builder info) (bi_binary info)) in_order objss /\
+    In (show_stmt (SBuild lb)) (map show_stmt entries) /\
+    nb_inputs lb = Some (concat objss).
+Proof. exact configured_build_links. Qed.
+Print Assumptions C03_link_consumes_sources.
+
+(* what module_objects says, spelled out for a module compiled by the default rules: as many
+   objects as sources, the i-th object is the object of the i-th source *)
+Theorem C03_one_object_per_source : forall H EV rules merge_opts ms objdir bn an m menv mdeps srcdir objs,
+  module_objects H EV rules merge_opts ms objdir bn an (m, menv, mdeps) objs ->
+  m_srcdir m = Some srcdir -> m_build m = None ->
+  exists flat mr dh,
+    flatten_with_opts_option merge_opts menv = Ok flat /\
+    (forall e nr, alookup e mr = Some nr -> exists rule, alookup e rules = Some rule /\ to_ninja H EV flat rule = Ok nr) /\
+    length objs = length (all_sources m ms) /\
+    forall i source, nth_error (all_sources m ms) i = Some source ->
+      exists obj, nth_error objs i = Some obj /\ source_object H EV rules mr flat objdir bn an srcdir dh source = Some obj.
+Proof.
+  intros H EV rules merge_opts ms objdir bn an m menv mdeps srcdir objs HM Hsd Hb.
+  unfold module_objects in HM. rewrite Hsd, Hb in HM. destruct HM as (flat & mr & dh & Hf & Hmr & Hmap).
+  exists flat, mr, dh. split; [exact Hf|]. split; [exact Hmr|]. split.
+  - rewrite <- (map_length Some objs), <- Hmap, map_length. reflexivity.
+  - intros i source Hn.
+    assert (E : nth_error (map (source_object H EV rules mr flat objdir bn an srcdir dh) (all_sources m ms)) i
+                = Some (source_object H EV rules mr flat objdir bn an srcdir dh source)) by (apply map_nth_error, Hn).
+    rewrite Hmap in E. rewrite nth_error_map in E. destruct (nth_error objs i) as [obj|]; [|discriminate E].
+    cbn in E. injection E as E. exists obj. split; [reflexivity|symmetry; exact E].
+Qed.
+Print Assumptions C03_one_object_per_source.
